@@ -417,6 +417,17 @@ def make_numpy(extra=None):
         raise Unsupported("np.std of a fixed array")
     A["std"] = Builtin("np.std", std)
 
+    def unique(I, a, k):
+        x = a[0]
+        if hasattr(x, "np_unique"):
+            return x.np_unique(I)
+        t = as_tensor(I, x)
+        if any(isinstance(v, Sym) for v in t.data):
+            raise Unsupported("np.unique of symbolic values in a fixed array")
+        vals = sorted(set(t.data))
+        return Tensor((len(vals),), vals, t.dtype)
+    A["unique"] = Builtin("np.unique", unique)
+
     A["sum"] = Builtin("np.sum", np_sum)
     A["mean"] = Builtin("np.mean", np_mean)
 
